@@ -15,9 +15,9 @@ NOTES = ("All checks explore mila itself (no separate abstract model): states/tr
          "See DESIGN.md.")
 NOT_APPLICABLE = {}
 
-claim("C14", "E2-enumerate", "bounded-exhaustive enumeration of localizer x language x path (all paths to depth 4/5 over an 8-component alphabet) against a specification table",
+claim("C14", "E2-enumerate + E1-bfs", "bounded-exhaustive enumeration of localizer x language x path against a specification table, plus explicit-state exploration of real LayeredFilesystems for every game x language",
       "Every one of the 6 localizers x 8 languages x all relative paths up to depth 4 (quick) / 5 (thorough) plus degenerate paths is executed and compared with the specification table; exhaustive within that scope, which contains one path per structural case of the mapping (single component, trailing slash, non-ASCII, blank and marker-like components).",
-      "Trusted: the specification table in ref_loc.rs (written from the property statement); paths outside the plain-component domain are not judged. The filesystem half is decided under C12/C13.",
+      "Trusted: the specification table in ref_loc.rs (written from the property statement); paths outside the plain-component domain are not judged. The filesystem half (localized writes/reads/existence checks/listings address root/localize(p)) is explored on real directories for all 5 games x 8 languages at depth 1-2 in this check and at full depth for two pairs under C12/C13.",
       "DESIGN.md §4 C14")
 
 claim("C08", "E2-enumerate", "bounded-exhaustive input enumeration through the real compressor, output walked token-by-token by an independent LZ10 decoder",
